@@ -100,3 +100,67 @@ Proof.
     simpl. repeat constructor; simpl; intuition discriminate.
   - vm_compute. reflexivity.
 Qed.
+
+(** * the array heap under the schedule (pkg/utils/heap)
+    The theorems above speak about the schedule as a key -> priority map with "pop an entry of
+    least priority".  The implementation is an array heap with a name index, driven by the
+    sift loops of container/heap.  Its model (Cron/ArrayHeap.v, compared slot by slot with the
+    real heap by the heap stream) refines that map: *)
+From Furiko Require Cron.ArrayHeap Proofs.ArrayHeapP Proofs.HeapRefineP.
+
+(** New(items) over distinct names is a well-formed, ordered heap holding exactly the items *)
+Theorem c01_array_heap_new :
+  forall items, NoDup (ArrayHeapP.keys items) ->
+    ArrayHeapP.Good (ArrayHeap.h_new items) /\ HeapRefineP.Refines (ArrayHeap.h_new items) items.
+Proof. exact HeapRefineP.refines_new. Qed.
+Print Assumptions c01_array_heap_new.
+
+(** Push of an absent name / Update of a present one are h_upsert; Delete is h_delete *)
+Theorem c01_array_heap_push :
+  forall h a k p, ArrayHeapP.Good h -> HeapRefineP.Refines h a -> ArrayHeap.h_search h k = None ->
+    ArrayHeapP.Good (ArrayHeap.h_push h k p) /\ HeapRefineP.Refines (ArrayHeap.h_push h k p) (h_upsert k p a).
+Proof. exact HeapRefineP.refines_push. Qed.
+Print Assumptions c01_array_heap_push.
+
+Theorem c01_array_heap_update :
+  forall h a k p p0, ArrayHeapP.Good h -> HeapRefineP.Refines h a -> ArrayHeap.h_search h k = Some p0 ->
+    ArrayHeapP.Good (fst (ArrayHeap.h_update h k p)) /\ HeapRefineP.Refines (fst (ArrayHeap.h_update h k p)) (h_upsert k p a).
+Proof. exact HeapRefineP.refines_update. Qed.
+Print Assumptions c01_array_heap_update.
+
+Theorem c01_array_heap_delete :
+  forall h a k, ArrayHeapP.Good h -> HeapRefineP.Refines h a ->
+    ArrayHeapP.Good (fst (ArrayHeap.h_delete h k)) /\ HeapRefineP.Refines (fst (ArrayHeap.h_delete h k)) (h_delete k a).
+Proof. exact HeapRefineP.refines_delete. Qed.
+Print Assumptions c01_array_heap_delete.
+
+(** Peek / Pop give an entry of the map with the least priority of all, and leave the map
+    without that key *)
+Theorem c01_array_heap_pop_min :
+  forall h a, ArrayHeapP.Good h -> HeapRefineP.Refines h a -> ArrayHeap.queue h <> [] ->
+    let x := snd (ArrayHeap.h_pop h) in
+    ArrayHeap.h_peek h = Some x /\ h_find (ArrayHeap.ikey x) a = Some (ArrayHeap.iprio x) /\
+    (forall k' p', h_find k' a = Some p' -> ArrayHeap.iprio x <= p') /\
+    ArrayHeapP.Good (fst (ArrayHeap.h_pop h)) /\
+    HeapRefineP.Refines (fst (ArrayHeap.h_pop h)) (h_delete (ArrayHeap.ikey x) a).
+Proof. exact HeapRefineP.refines_pop. Qed.
+Print Assumptions c01_array_heap_pop_min.
+
+(** over histories: whatever sequence of Push (absent names) / Pop / Update / Delete runs, the
+    heap order holds, the index maps every name to its slot and no name occurs twice *)
+Theorem c01_array_heap_histories :
+  forall ops h, ArrayHeapP.Good h -> ArrayHeapP.hrun_ok h ops -> ArrayHeapP.Good (fold_left ArrayHeap.hstep ops h).
+Proof. exact ArrayHeapP.hrun_good. Qed.
+Print Assumptions c01_array_heap_histories.
+
+Example c01_array_heap_nonvacuous :
+  let items := [(1, 60); (2, 100); (3, 40); (4, 100); (5, 7)] in
+  let ops := [ArrayHeap.HPush 6 3; ArrayHeap.HPop; ArrayHeap.HUpdate 2 1; ArrayHeap.HDelete 4; ArrayHeap.HPush 7 50; ArrayHeap.HPop] in
+  NoDup (ArrayHeapP.keys items) /\ ArrayHeapP.hrun_ok (ArrayHeap.h_new items) ops /\
+  ArrayHeap.h_peek (fold_left ArrayHeap.hstep ops (ArrayHeap.h_new items)) = Some (5, 7).
+Proof.
+  cbv zeta. split; [|split].
+  - unfold ArrayHeapP.keys. simpl. repeat constructor; simpl; intuition discriminate.
+  - vm_compute. repeat split; reflexivity.
+  - vm_compute. reflexivity.
+Qed.
